@@ -149,9 +149,54 @@ def rule_a(repo, chk):
     dr = q.methods.get('drainFrom')
     if dr is not None:
         chk.touch(dr)
-        ext = [c for r, c in pat.method_calls(dr.node, 'extend') if r == f'self.{fifo}']
-        ok = bool(ext) and src(ext[0].args[0]).endswith('.' + fifo)
-        chk.ob('a', dr.ref, 'drainFrom appends the other FIFO in order (extend)', ok, loc(dr, dr.node), discr='drain-extend')
+        other = dr.params[1]
+        gd = dr.cfg()
+        # entries leave the other FIFO front first and are appended here one by one, in a loop that runs until the other FIFO is empty
+        loops = [n for n in gd.nodes if n.kind == 'test' and src(n.ast) in (f'{other}.{fifo}', f'len({other}.{fifo})') and any(e.kind == 'T' and any(k == 'loop' for k, _a in e.dst.ctx)
+                                                                                                                           for e in n.succ)]
+        pops = [n for n in gd.nodes if n.kind == 'stmt' and any(r == f'{other}.{fifo}' for r, _c in pat.method_calls(n.ast, 'popleft'))]
+        apps = [n for n in gd.nodes if n.kind == 'stmt' and any(r == f'self.{fifo}' for r, _c in pat.method_calls(n.ast, 'append'))]
+        fifo_apps = [a for a in apps if any(Q.reaches(p_, a) for p_ in pops)]
+        ok = bool(loops) and bool(pops) and bool(fifo_apps) and all(Q.escapes(gd, [p_], lambda n: n in fifo_apps, exits=('exit',), extra_exit=lambda n: n in loops) is None for p_ in pops)
+        chk.ob('a', dr.ref, 'drainFrom takes the other FIFO front first and appends entry by entry (order kept, nothing a concurrent fire() adds is lost)', ok, loc(dr, dr.node),
+               discr='drain-extend')
+        # the other queue counted on its own: every entry that comes over gets the next sequence number of this queue (else it ties with, overtakes or falls behind
+        # events of the same priority queued here)
+        stamped = True
+        sinks = apps + [n for n in gd.nodes if n.kind == 'stmt' and any(call_name(c) == 'heappush' and c.args and src(c.args[0]).startswith('self.') for c in calls_in(n.ast))]
+        for a in sinks:
+            tup = None
+            for c in calls_in(a.ast):
+                if c.args and isinstance(c.args[-1], ast.Tuple) and len(c.args[-1].elts) == 3:
+                    tup = c.args[-1]
+            incs = [n for n in gd.nodes if n.kind == 'stmt' and isinstance(n.ast, ast.AugAssign) and src(n.ast.target) == 'self._counter' and isinstance(n.ast.op, ast.Add)
+                    and pat.is_const(n.ast.value, 1)]
+            fresh = tup is not None and src(tup.elts[1]) == 'self._counter' and Q.reachable_without(gd, a, avoid_node=lambda n: n in incs) is None
+            for a2 in sinks:
+                for e in a2.succ:
+                    if e.kind == 'n' and e.dst not in incs and e.dst is not a and Q.reachable_without(gd, a, start=e.dst, avoid_node=lambda n: n in incs) is not None:
+                        fresh = False
+                    if e.kind == 'n' and e.dst is a:
+                        fresh = False
+            stamped = stamped and fresh
+        bulk = [c for r, c in pat.method_calls(dr.node, 'extend') if r.startswith('self.')]
+        chk.ob('a', dr.ref, 'every entry taken over is numbered by this queue (a fresh sequence number per entry)', stamped and bool(sinks) and not bulk, loc(dr, dr.node),
+               detail='bulk copy: ' + '; '.join(src(c) for c in bulk) if bulk else '', discr='drain-restamped')
+        # the rest of a batch the other queue was flushing was queued before the pass began: it joins the batch here (heap + batch size), not the pending FIFO
+        hpops = [n for n in gd.nodes if n.kind == 'stmt' and any(call_name(c) == 'heappop' and c.args and src(c.args[0]).startswith(other + '.') for c in calls_in(n.ast))]
+        hpush = [n for n in gd.nodes if n.kind == 'stmt' and any(call_name(c) == 'heappush' and c.args and src(c.args[0]).startswith('self.') for c in calls_in(n.ast))]
+        grow = [n for n in gd.nodes if n.kind == 'stmt' and isinstance(n.ast, ast.AugAssign) and src(n.ast.target) == 'self._flush_batch' and isinstance(n.ast.op, ast.Add)
+                and pat.is_const(n.ast.value, 1)]
+        okb = bool(hpops) and bool(hpush) and bool(grow)
+        for hp in hpops:
+            heads = [n for n in gd.nodes if n.kind == 'test' and Q.reaches(hp, n) and Q.reaches(n, hp)]
+            for grp in (hpush, grow):
+                if Q.escapes(gd, [hp], lambda n: n in grp, exits=('exit',), extra_exit=lambda n: n in heads) is not None:
+                    okb = False
+            if any(Q.reachable_without(gd, a, start=hp, avoid_node=lambda n: n in heads) is not None for a in fifo_apps if a not in hpush):
+                okb = False
+        chk.ob('a', dr.ref, 'the rest of a batch the other queue was flushing joins the batch of this queue (pushed on the heap, batch size raised per entry): it was queued '
+                            'before the pass began and must not be sorted together with what handlers fired since', okb, loc(dr, dr.node), discr='drain-batch-joins-batch')
 
 
 def rule_b(repo, chk):
@@ -391,6 +436,15 @@ def rule_d(repo, chk):
                 if r == lv:
                     chk.ob('d', d.ref, 'the sorted list is not re-ordered afterwards', False, loc(d, c), detail=f'`{src(c)}`',
                            discr='reordered')
+    # … and nothing is added to it unless it is empty (a fall-back appended to a non-empty sorted list runs after handlers of lower priority than its own)
+    for n in g.nodes:
+        if n.kind == 'stmt':
+            for r, c in pat.method_calls(n.ast, 'append') + pat.method_calls(n.ast, 'extend'):
+                if r == lv:
+                    q_ = pat.guarded_by(g, n, pat.test_edge(lambda tt, pol: pat.fact_matches(pat.compare_fact(tt, pol), f'len({lv})', ('==',), '0') or
+                                                            (pol == 'F' and src(tt) == lv)), weak=True)      # (the memo miss is an implicit KeyError)
+                    chk.ob('d', d.ref, 'a handler is added to the sorted list only when the list is empty', q_ is None, loc(d, c), detail=f'`{src(c)[:80]}`',
+                           path=pat.path_lines(q_) if q_ else None, discr='append-only-when-empty')
     # handler(): the priority attribute is the decorator's argument
     w = repo.func('circuits/core/handlers.py', 'handler.wrapper')
     chk.touch(w)
